@@ -695,6 +695,13 @@ def check(ctx):
         check_vec_disown(ctx, cfg)
         check_position_stores(ctx, cfg)
         nc = check_owner_constructions(ctx, cfg)
+        if not cfg.startswith("F0"):
+            # boxed forms: a block (and the elements in it) that leaves its Box is adopted again exactly once - the raw hand-over rules of C16
+            # are ownership-linearity of the elements as much as of the allocation (a block adopted twice drops its elements twice)
+            from . import c16 as _c16
+            _c16.check_raw_sites(ctx, cfg)
+            _c16.check_handover(ctx, cfg)
+            _c16.check_release_taken_up(ctx, cfg)
         ctx.floor("C03.C", "constructions of tracked owners (%s)" % cfg, nc, 4)
         ctx.floor("C03.T", "tiling / whole-value reinterpretation instances (%s)" % cfg, n, 11)
         p = c04.check_closures(ctx, cfg, want_normal=True, rule_p="C03.P")
